@@ -4,6 +4,7 @@ with table-driven unwrap results, table-driven elaborate_frame hooks.  Pure stdl
 Ops:  hooks.c10  - run extract() on an item tree with per-frame elaborate results, report frames/leaf/error
 """
 import sys
+import collections
 import warnings
 
 import stackscope
@@ -124,6 +125,9 @@ def _unwrap_item(it):
         return realize(s["ch"][0])
     if u == "tuple":
         return tuple(realize(c) for c in s["ch"])
+    if u == "deque":
+        # any Sequence is a sequence of stack items, also one that cannot be sliced
+        return collections.deque(realize(c) for c in s["ch"])
     if u == "list":
         if it.own_list is None:
             it.own_list = [realize(c) for c in s["ch"]]
@@ -185,6 +189,10 @@ def _make_elab(idx):
             return [realize(n) for n in e[1]] + [next_inner]
         if k == "insert_tuple":
             return tuple(realize(n) for n in e[1]) + (next_inner,)
+        if k == "insert_deque":
+            return collections.deque([realize(n) for n in e[1]] + [next_inner])
+        if k == "replace_deque":
+            return collections.deque(realize(n) for n in e[1])
         if k == "self":
             return next_inner
         raise AssertionError(k)
